@@ -134,6 +134,18 @@ let handle (toks: string list) : string =
             Buffer.add_char buf ' ';
             Buffer.add_string buf (show s' (match r with Accepted -> "ok" | Refused -> "ref")); s') s0 ops in
       id ^ " " ^ Buffer.contents buf
+  | "crc32" :: id :: hex :: [] -> id ^ " " ^ string_of_int (int_of_n (crc32 N0 (hexarg hex)))
+  | "crc16" :: id :: seed :: hex :: [] -> id ^ " " ^ string_of_int (int_of_n (crc16 (n_of_int (int_of_string seed)) (hexarg hex)))
+  | "imdtrk" :: id :: _kind :: secsize :: nsec :: rest ->
+      (* rest: sector payloads in track-buffer order (hex); the in-memory track has code 1 before each *)
+      let size = int_of_string secsize in
+      let buf = List.concat_map (fun h -> n_of_int 1 :: hexarg h) rest in
+      ignore size;
+      id ^ " " ^ show_outcome (imd_compress (n_of_int size) (nat_of_int (int_of_string nsec)) buf)
+  | "td0sec" :: id :: size :: hex :: [] ->
+      (match td0_pack (n_of_int (int_of_string size)) (hexarg hex) with
+       | ROk p -> id ^ " " ^ hex_of_bytes p ^ " " ^ show_outcome (td0_unpack (n_of_int (int_of_string size)) p)
+       | _ -> id ^ " packerr")
   | "cells" :: id :: family :: btype :: rest ->
       (* family: do | woz | d13 | woz35:<sides> | fat:<spt>:<heads>:<secsize> | cpm:<imd|td0>:<ident>:<spt>:<shift>:<heads> *)
       let ni s = n_of_int (int_of_string s) in
